@@ -445,4 +445,17 @@ def _probe_D15():
     return False
 
 
-FINDING_PROBES = {'D13': _probe_D13, 'D14': _probe_D14, 'D7': _probe_D7, 'D11': _probe_D11, 'D15': _probe_D15}
+def _probe_c05(fid):
+    def probe():
+        import builders, random as _r, tsh
+        for sc in builders.c05(_r.Random(1)):
+            if len(sc) > 5 and sc[5] == fid:
+                v = tsh.F.run_auth_scripts(list(sc[1]), dict(sc[2]), sc[3].contract_objs(tsh.Log()), sc[3].plugins(tsh.Log()),
+                                           sc[3].max_items, sc[3].max_item_size, sc[3].limit)
+                return bool(v) != bool(sc[4])
+        return False
+    return probe
+
+
+FINDING_PROBES = {'D13': _probe_D13, 'D14': _probe_D14, 'D7': _probe_D7, 'D11': _probe_D11, 'D15': _probe_D15,
+                  'D18': _probe_c05('D18'), 'D19': _probe_c05('D19')}
